@@ -6,6 +6,7 @@ import (
 	"context"
 	"encoding/json"
 	"fmt"
+	"runtime"
 	"sort"
 	"sync"
 	"testing"
@@ -55,15 +56,19 @@ func (s *scenario) quiesce() {
 
 // settleRealTime polls until the observable state has not changed for `quiet`, at most `max`.
 func (s *scenario) settleRealTime(quiet, max time.Duration) {
+	// quiet = unchanged for the given time AND over at least 12 polls, each of which yields the processor: if the whole
+	// process was descheduled for a while (a loaded machine), elapsed wall-clock time alone says nothing about whether the
+	// scenario's goroutines have had a chance to run
 	deadline := time.Now().Add(max)
 	last := canonV(s.observe())
-	stableSince := time.Now()
+	stableSince, polls := time.Now(), 0
 	for time.Now().Before(deadline) {
 		time.Sleep(200 * time.Microsecond)
+		runtime.Gosched()
 		cur := canonV(s.observe())
 		if cur != last {
-			last, stableSince = cur, time.Now()
-		} else if time.Since(stableSince) >= quiet {
+			last, stableSince, polls = cur, time.Now(), 0
+		} else if polls++; polls >= 12 && time.Since(stableSince) >= quiet {
 			return
 		}
 	}
